@@ -45,7 +45,16 @@ func (pf *prefixFile) Readdirnames(n int) ([]string, error) {
 	return pf.f.Readdirnames(n)
 }
 func (pf *prefixFile) Stat() (fs.FileInfo, error) {
-	return pf.f.Stat()
+	fi, err := pf.f.Stat()
+	if err != nil {
+		return nil, err
+	}
+	if pf.nameOverride == separator {
+		// the handle of the prefix root: like Stat and Lstat of the root,
+		// do not report the name of the prefix directory
+		return &prefixFileInfo{baseFi: fi, nameOverride: separator}, nil
+	}
+	return fi, nil
 }
 func (pf *prefixFile) Sync() error {
 	return pf.f.Sync()
